@@ -3,6 +3,7 @@ import TracklibVerif.Lemmas.GraphPD
 import TracklibVerif.Lemmas.GraphSessionQ
 import TracklibVerif.Lemmas.GraphR4
 import TracklibVerif.Lemmas.GraphWorld
+import TracklibVerif.Lemmas.GraphWorldQ
 import TracklibVerif.Lemmas.GraphAStarFix
 import Mathlib.Algebra.Order.Group.Int
 /-! # C06 — network shortest distances are the true minimum over permitted walks
@@ -320,8 +321,8 @@ theorem forward_uses_priority_dict (net : Net W) (hnet : WFNet net) (s : Nat) (h
 `Network` objects with their own settings (`Model/GraphAStar.lean`)
 
 For which configurations does the property's statement hold?
-* **Dijkstra** (an object's own `routing_mode ≠ 1`): always — `own_setting_dijkstra_is_session` reduces every call to the
-  session model, to which all theorems above apply; `routing_settings_per_object` says that only the object's *own*
+* **Dijkstra** (an object's own `routing_mode ≠ 1`): always — `world_dijkstra_distance_correct` is the statement for any
+  program over several objects; `own_setting_dijkstra_is_session` reduces every call to the session model; `routing_settings_per_object` says that only the object's *own*
   setters count, whatever other `Network` objects of the program were told.
 * **A\*, no target** (list form, `all_shortest_distances`, `prepare`, `sub_network`): always, the heuristic is never
   computed — `no_target_no_heuristic`.
@@ -368,6 +369,29 @@ theorem no_target_no_heuristic (sqrt : V → V) (o : NetObj V) (op : Op V)
     execObj sqrt o (.call op) = ({ o with sess := (exec o.sess op).1 }, (exec o.sess op).2) :=
   execObj_no_target sqrt o op h1 h2
 end routing
+
+/-- **the property in a program with several networks.** Start with no `Network` object and run any program: creations,
+`addNode` / `addEdge`, searches of every kind, `prepare`, `sub_network`, and `setRoutingMethod` / `setAStarWeight` on any of
+the objects, in any interleaving (the object itself may have been in A* mode earlier). Then on every object whose own
+routing method is Dijkstra at that moment, `shortest_distance(s, t[, cut])` is the minimum weight over the permitted walks
+of that object's current graph — the sentinel iff there is none; with a cut-off the true distance whenever it is within
+it. (The seeded change that keeps the settings at class level breaks exactly this.) -/
+theorem world_dijkstra_distance_correct [Sub W] [Mul W] [OfNat W 1] (sqrt : W → W) (ops : List (WorldOp W)) (k : Nat)
+    (o : NetObj W) (hk : (worldAfter sqrt [] ops)[k]? = some o) (hm : o.mode ≠ 1) (s t : Nat)
+    (hs : s ∈ o.sess.order) (ht : t ∈ o.sess.order) (cut : Option W) (ud : Bool) :
+    ∃ d, (execWorld sqrt (worldAfter sqrt [] ops) (.on k (.call (.dist s t cut ud)))).2 = .val d ∧
+      (∀ y, IsDist o.sess.net s t y → Within cut y → d = some y) ∧ (¬ Reachable o.sess.net s t → d = none) ∧
+      (cut = none → ∀ y, d = some y ↔ IsDist o.sess.net s t y) ∧
+      (cut = none → (d = none ↔ ¬ Reachable o.sess.net s t)) := by
+  have h : SessOK o.sess := worldAfter_ok sqrt [] (by intro k o hq; simp at hq) ops k o hk
+  refine ⟨shortestDistance o.sess.net s t cut, ?_, ?_, ?_, ?_, ?_⟩
+  · simp only [execWorld, hk]
+    rw [execObj_dijkstra sqrt o hm]
+    exact (exec_dist_eq o.sess h s t hs ht cut ud).1
+  · exact (shortest_distance_cut o.sess.net h.wf s t (h.nodes s hs) cut).1
+  · exact (shortest_distance_cut o.sess.net h.wf s t (h.nodes s hs) cut).2
+  · intro hc; subst hc; exact (shortest_distance_correct o.sess.net h.wf s t (h.nodes s hs)).1
+  · intro hc; subst hc; exact (shortest_distance_correct o.sess.net h.wf s t (h.nodes s hs)).2
 
 /-- A* with a heuristic that is 0 on every node — `astar_wgt = 0` (`heuristicOf_zero_weight`), or every node at the
 target's position — is Dijkstra: same labels, same recorded entries, hence the true distance (needs `a + 0 = a`, which
